@@ -31,7 +31,8 @@ def _parse_kv(words):
 
 
 class Unit:
-    def __init__(self, name, template_path, repo):
+    def __init__(self, name, template_path, repo, canary=False):
+        self.canary = canary
         self.name = name
         self.template_path = template_path
         self.repo = repo
@@ -210,6 +211,15 @@ class Unit:
             a, b = m          # type text is text[a:b]
             named = (a, b, ret)
         sig_text = '\n'.join(sig_spec)
+        if self.canary and kv.get('mode', 'verify') == 'verify':
+            # vacuity canary: every contract additionally promises an uninterpreted, function-specific
+            # fact; a function that still verifies has an unsatisfiable precondition (or cannot return)
+            self.canary_n = getattr(self, 'canary_n', 0) + 1
+            clause = 'vcanary(%dint)' % self.canary_n
+            if re.search(r'\bensures\b', sig_text):
+                sig_text = re.sub(r'\bensures\b', 'ensures %s,' % clause, sig_text, count=1)
+            else:
+                sig_text = sig_text + '\n        ensures %s,' % clause
         mode = kv.get('mode', 'verify')
         pre_attr = ''
         if mode == 'external_body':
@@ -346,8 +356,8 @@ class Unit:
                     items=self.items)
 
 
-def generate(unit, template_path, repo, out_rs, out_meta):
-    u = Unit(unit, template_path, repo)
+def generate(unit, template_path, repo, out_rs, out_meta, canary=False):
+    u = Unit(unit, template_path, repo, canary=canary)
     text = u.generate()
     os.makedirs(os.path.dirname(out_rs), exist_ok=True)
     open(out_rs, 'w', encoding='utf-8').write(text)
